@@ -342,14 +342,14 @@ impl_wide_float!(
 impl Recip for f32x4 {
     #[inline]
     fn recip(self) -> Self {
-        f32x4::recip(self)
+        f32x4::ONE / self
     }
 }
 
 impl Recip for f32x8 {
     #[inline]
     fn recip(self) -> Self {
-        f32x8::recip(self)
+        f32x8::ONE / self
     }
 }
 
